@@ -76,10 +76,12 @@ func genHistory(t *rapid.T, w hWeights) hScenario {
 			op.N = rapid.IntRange(0, 30).Draw(t, "i")
 		case "savefail":
 			op.Op, op.Fail = "save", true
+			op.Gap = rapid.IntRange(0, 3).Draw(t, "errkind")
 			op.N = rapid.IntRange(0, nvb).Draw(t, "writes")
 			op.Ord = []int{rapid.IntRange(0, 7).Draw(t, "o1"), rapid.IntRange(0, 7).Draw(t, "o2")}
 		case "saveend":
 			op.Fail = rapid.IntRange(0, 2).Draw(t, "fail") == 2
+			op.Gap = rapid.IntRange(0, 3).Draw(t, "errkind")
 			op.N = rapid.IntRange(0, nvb).Draw(t, "writes")
 			op.Ord = []int{rapid.IntRange(0, 7).Draw(t, "o1"), rapid.IntRange(0, 7).Draw(t, "o2")}
 		case "crash":
@@ -109,6 +111,9 @@ func genHistory(t *rapid.T, w hWeights) hScenario {
 	})
 	// lengths: rapid's slices are short by default (mean ~ min+5), so a history is a drawn number of
 	// chunks; the chunk count is drawn first, so shrinking it only drops trailing ops
+	if rapid.IntRange(0, 4).Draw(t, "docbucket") == 0 {
+		sc.DocBucket = "5f0d7e2b9a4c41c08e3b6f1a2d9c7e55"
+	}
 	nChunks := rapid.IntRange(1, (w.maxOps+5)/6).Draw(t, "chunks")
 	for c := 0; c < nChunks && len(sc.Ops) < w.maxOps; c++ {
 		sc.Ops = append(sc.Ops, rapid.SliceOfN(opGen, 1, 12).Draw(t, "ops")...)
